@@ -225,6 +225,62 @@ def input_forms_ok(c):
     return None
 
 
+def child_sum(a, sc):
+    """Independent oracle: sum over the children of every coarse cell (pattern sc)."""
+    co = COARS[sc]
+    a = np.asarray(a)
+    for ax in range(3):
+        if co[ax]:
+            sl0 = [slice(None)] * 3
+            sl1 = [slice(None)] * 3
+            sl0[ax] = slice(0, None, 2)
+            sl1[ax] = slice(1, None, 2)
+            a = a[tuple(sl0)] + a[tuple(sl1)]
+    return a
+
+
+def two_level_case(seed, sc1, sc2, cplx, aniso):
+    """Two consecutive restrictions (levels 0 -> 1 -> 2) of a heterogeneous model with mu_r:
+    on EVERY level each coarse parameter is the sum of its children.  Returns a hit or None."""
+    import emg3d
+    import emg3d.solver as S
+    npr = np.random.RandomState(seed)
+    cells = [4 * int(npr.randint(1, 3)) for _ in range(3)]
+    hs = [npr.randint(2, 13, n) / 4.0 for n in cells]
+    grid = emg3d.TensorMesh(hs, (-3.0, 2.0, 0.5))
+    shape = tuple(cells)
+    kw = dict(property_x=npr.uniform(0.1, 5, shape), mu_r=npr.uniform(0.5, 2, shape),
+              mapping='Conductivity')
+    if aniso in (1, 3):
+        kw['property_y'] = npr.uniform(0.1, 5, shape)
+    if aniso in (2, 3):
+        kw['property_z'] = npr.uniform(0.1, 5, shape)
+    model = emg3d.Model(grid, **kw)
+    freq = 1.0 if cplx else -1.0
+    sfield = emg3d.Field(grid, frequency=freq)
+    vm = emg3d.models.VolumeModel(model, sfield)
+    res = emg3d.Field(grid, frequency=freq)
+    base = dict(two_level=True, np_seed=int(seed), sc=int(sc1), sc2=int(sc2), complex=bool(cplx), shape=list(shape),
+                aniso=['isotropic', 'HTI', 'VTI', 'triaxial'][aniso])
+    cur, cs, lev = vm, sfield, 0
+    for sc in (sc1, sc2):
+        want = {nm: child_sum(getattr(cur, nm), sc) for nm in ('eta_x', 'eta_y', 'eta_z', 'zeta')}
+        r = emg3d.Field(cur.grid, frequency=freq)
+        cm, cs, _ = S.restriction(cur, cs, r, sc)
+        lev += 1
+        for nm in ('eta_x', 'eta_y', 'eta_z', 'zeta'):
+            got = np.asarray(getattr(cm, nm))
+            if got.shape != want[nm].shape or \
+                    np.max(np.abs(got - want[nm])) > 1e-12 * max(1e-300, float(np.max(np.abs(want[nm])))):
+                k = np.unravel_index(int(np.argmax(np.abs(got - want[nm]))), got.shape) \
+                    if got.shape == want[nm].shape else None
+                return dict(signature=f'coarse {nm} on level {lev} is not the sum of its children', **base,
+                            observed=str(got[k]) if k is not None else str(got.shape),
+                            required=str(want[nm][k]) if k is not None else str(want[nm].shape))
+        cur = cm
+    return None
+
+
 def correspondence(ctx):
     rng = ctx.rng
     n = 42 if ctx.thorough else 14
@@ -252,6 +308,12 @@ def correspondence(ctx):
                         'case': {'sc': c['sc'], 'shape': list(c['shape'])}})
         texts.append((f"c04_k_{i}", text))
         impls.append(impl)
+    # deeper hierarchy: two consecutive restrictions, every pattern first, all anisotropy cases
+    for sc1 in range(7):
+        h = two_level_case(rng.randint(0, 2**31 - 1), sc1, (sc1 + 3) % 7 if sc1 % 2 else 0,
+                           cplx=(sc1 % 2 == 0), aniso=(sc1 + 3) % 4)
+        if h:
+            dis.append({'what': h['signature'], 'case': {k: v for k, v in h.items() if k != 'signature'}})
     res = V.coq_eval_many(texts)
     names = ['restrict x', 'restrict y', 'restrict z', 'prolong x', 'prolong y', 'prolong z',
              'restrict_param eta_x', 'restrict_param eta_y', 'restrict_param eta_z', 'restrict_param zeta']
@@ -294,7 +356,7 @@ def correspondence(ctx):
 
 
 # ------------------------------------------------------------------ searcher
-def search_case(rng, sc, cplx, seed=None):
+def search_case(rng, sc, cplx, seed=None, utm=None):
     """R = P^T on interior edges, partition of unity, frame, conservation;
     implementation only."""
     import emg3d
@@ -305,7 +367,8 @@ def search_case(rng, sc, cplx, seed=None):
     co = COARS[sc]
     ccells = [int(npr.randint(1, 4)) for _ in range(3)]
     cells = [2 * c if f else int(npr.randint(2, 5)) for c, f in zip(ccells, co)]
-    utm = npr.uniform() < 0.4
+    u0 = npr.uniform() < 0.4
+    utm = u0 if utm is None else utm
     if utm and co[0] == co[1]:
         cells[1] = cells[0]
     # dyadic widths/origin at large coordinates so that node positions are exact
@@ -323,7 +386,7 @@ def search_case(rng, sc, cplx, seed=None):
     freq = 1.0 if cplx else -1.0
     sfield = emg3d.Field(grid, frequency=freq)
     vmodel = emg3d.models.VolumeModel(model, sfield)
-    base = dict(sc=sc, complex=cplx, shape=list(shape), np_seed=seed, origin=list(origin),
+    base = dict(sc=sc, complex=cplx, shape=list(shape), np_seed=seed, origin=list(origin), utm=bool(utm),
                 aniso=['isotropic', 'HTI', 'VTI', 'triaxial'][aniso])
 
     def interior(g):
@@ -395,7 +458,11 @@ def search_case(rng, sc, cplx, seed=None):
     for d in range(3):
         nodes = [grid.nodes_x, grid.nodes_y, grid.nodes_z][d]
         cn = [cg.nodes_x, cg.nodes_y, cg.nodes_z][d]
-        if not np.allclose(cn, nodes[::2] if co[d] else nodes, rtol=0, atol=0):
+        # float widths: the coarse nodes are a cumulative sum of SUMMED widths, the fine ones of the
+        # widths themselves -- equal up to rounding only (exact for the dyadic large-coordinate cases)
+        ref = nodes[::2] if co[d] else nodes
+        tol = 0.0 if base['origin'][0] != 0 else 1e-12 * max(1.0, float(np.max(np.abs(ref))))
+        if cn.shape != ref.shape or np.max(np.abs(cn - ref)) > tol:
             return dict(signature='coarse grid is not every second node', **base, direction=d)
     # weights sum to one: rows of Pi for fine edges all of whose coarse
     # neighbours are interior
@@ -407,7 +474,10 @@ def search(ctx, broken):
     n = 56 if ctx.thorough else 14
     hits = []
     for i in range(n):
-        h = search_case(rng, i % 7, cplx=(i % 2 == 0))
+        h = search_case(rng, i % 7, cplx=(i % 2 == 0), utm=((i // 7) % 2 == 1))
+        if not h:
+            h = two_level_case(rng.randint(0, 2**31 - 1), i % 7, (i // 7 + i) % 7, cplx=(i % 2 == 1),
+                               aniso=i % 4)
         if h:
             hits.append(h)
             break
@@ -419,4 +489,7 @@ def replay(ctx, payload):
     fi = payload.get('failing_input') or {}
     if 'sc' not in fi:
         return False
-    return search_case(ctx.rng, fi['sc'], fi['complex'], fi.get('np_seed')) is None
+    if fi.get('two_level'):
+        return two_level_case(fi['np_seed'], fi['sc'], fi['sc2'], fi['complex'],
+                              ['isotropic', 'HTI', 'VTI', 'triaxial'].index(fi['aniso'])) is None
+    return search_case(ctx.rng, fi['sc'], fi['complex'], fi.get('np_seed'), utm=fi.get('utm')) is None
